@@ -98,6 +98,10 @@ def searches(ref, W, tier):
         cands = [p for p in sorted(W.store.paths) if ref.natural(p)[0] == typ]
         cands += [s for s in W.leaves if ref.natural(s)[0] == typ]
         if not cands:
+            # levels without path (constants-backed, or without any source): a prefix of an existing entity
+            from mc import datagen
+            cands = [p for p in datagen.closure_list(ref, W.leaves) if ref.natural(p)[0] == typ]
+        if not cands:
             continue
         segs = cands[0].split("/")
         n = len(segs)
